@@ -157,9 +157,11 @@ def search_decoupling_weights(chk, r, n):
         proj = r.choice(["electron", "positron"])
         th = cards.theory(**th_kw)
         objs = {}
+        # the coupling restriction of the positivity observables is an option of both processes
+        pos_ = [None, "u", "d", "all", "s", "c"][i % 6]
         try:
             for proc in ("NC", "EM"):
-                ob = cards.obs({}, prDIS=proc, ProjectileDIS=proj, **ob_kw)
+                ob = cards.obs({}, prDIS=proc, ProjectileDIS=proj, **dict(ob_kw, NCPositivityCharge=pos_))
                 import yadism
 
                 runner = yadism.Runner(th, dict(ob, observables={"F2_total": [dict(x=0.1, Q2=10.0)]}))
@@ -187,7 +189,7 @@ def search_decoupling_weights(chk, r, n):
                     scale = max(scale, abs(b))
                     if abs(a - b) > worst:
                         worst, where = abs(a - b), dict(fn="get_fl11_weight", pid=pid, nf=nf, qct=qct, NC=a, EM=b)
-        sample = dict(projectile=proj, polarization=ob_kw.get("PolarizationDIS"), Q2=Q2, MZ=1e30, worst=worst, where=where)
+        sample = dict(projectile=proj, polarization=ob_kw.get("PolarizationDIS"), NCPositivityCharge=pos_, Q2=Q2, MZ=1e30, worst=worst, where=where)
         chk.search_case("nc_weights_with_decoupled_Z_are_em", worst <= 1e-12 * max(scale, 1e-300), what=f"NC weight with M_Z=1e30 differs from the EM weight: {where}", data=sample, sample=sample if i == 0 or worst else None, nontrivial=scale > 0)
 
 
